@@ -64,6 +64,13 @@ def InCorner (a : Area) (c : Int) (t : Tile) : Prop :=
   (c = 2 ∧ a.x2 - a.cornerX < t.x ∧ t.x ≤ a.x2 ∧ a.y2 - a.cornerY < t.y ∧ t.y ≤ a.y2) ∨
   (c = 3 ∧ a.x1 ≤ t.x ∧ t.x < a.x1 + a.cornerX ∧ a.y2 - a.cornerY < t.y ∧ t.y ≤ a.y2)
 
+instance (a : Area) (t : Tile) : Decidable (InRect a t) := by unfold InRect; infer_instance
+instance (a : Area) (t : Tile) : Decidable (InMap a t) := by unfold InMap; infer_instance
+instance (a : Area) (i j : Nat) (t : Tile) : Decidable (InBlock a i j t) := by unfold InBlock; infer_instance
+instance (a : Area) (k : Nat) (t : Tile) : Decidable (InLine a k t) := by
+  unfold InLine; cases a.axis <;> infer_instance
+instance (a : Area) (c : Int) (t : Tile) : Decidable (InCorner a c t) := by unfold InCorner; infer_instance
+
 /-- the corner rectangles do not overlap: left/right ones are apart and upper/lower ones are apart -/
 def CornersDisjoint (a : Area) : Prop := 2 * a.cornerX ≤ a.width ∧ 2 * a.cornerY ≤ a.height
 
